@@ -90,7 +90,13 @@ def run_property(prop: str, repo: str, tier: str, evidence_dir=None, quiet=False
         if selftest.get("broken"):
             raise AnalysisError("self-test of the checker failed: " + "; ".join(selftest["broken"][:5]))
     if not quiet:
-        print("\n".join(out))
+        try:
+            print("\n".join(out), flush=True)
+        except BrokenPipeError:  # the reader closed the pipe: the exit code still carries the verdict
+            try:
+                sys.stdout = open(os.devnull, "w")
+            except OSError:
+                pass
     return (1 if violations else 0), res, violations, known_hits, out
 
 
